@@ -32,6 +32,7 @@ import (
 func ParseQuery(q string) (pq *proto.Query, err error) {
 	p := newParser(q)
 
+	defer p.lexer.drain()
 	defer p.recover(&err)
 
 	pq, err = p.parse()
@@ -360,6 +361,13 @@ func lex(input string) *lexer {
 func (l *lexer) run() {
 	for l.state = lexText; l.state != nil; {
 		l.state = l.state(l)
+	}
+	close(l.items)
+}
+
+// drain consumes the remaining items so that the lexing goroutine terminates.
+func (l *lexer) drain() {
+	for range l.items {
 	}
 }
 
